@@ -29,6 +29,7 @@ import (
 
 type sys struct {
 	name  string
+	tree  bool // start from a non-initial state: R/a/{a (file, second name R/b)}
 	R     string
 	k     *osfs.OsFS
 	v     avfs.VFS
@@ -90,6 +91,22 @@ func (s *sys) Reset() error {
 
 	if err := s.v.Chdir(s.R); err != nil {
 		return fmt.Errorf("avfs Chdir(R): %v", err)
+	}
+
+	if s.tree {
+		for _, c := range []fsx.Call{
+			{Op: "Mkdir", A: s.R + "/a", Perm: 0o755},
+			{Op: "WriteFile", A: s.R + "/a/a", Data: "hello", Perm: 0o644},
+			{Op: "Link", A: s.R + "/a/a", B: s.R + "/b"},
+		} {
+			if r := fsx.Do(s.k, c); r.Kind != "ok" {
+				return fmt.Errorf("kernel setup %s: %s", c, r)
+			}
+
+			if r := fsx.Do(s.v, c); r.Kind != "ok" {
+				return fmt.Errorf("avfs setup %s: %s %s", c, r, r.Msg)
+			}
+		}
 	}
 
 	kd, vd, cwdK, cwdV := s.observe()
@@ -624,8 +641,8 @@ func factory(tier string) func(string) bfs.System {
 		base := filepath.Join(scratch, fmt.Sprintf("c01-%d", os.Getpid()))
 		R := filepath.Join(base, "w")
 
-		s := &sys{name: name, R: R}
-		s.ops = buildOps(name, R, tier)
+		s := &sys{name: strings.TrimSuffix(name, "+tree"), R: R, tree: strings.HasSuffix(name, "+tree")}
+		s.ops = buildOps(s.name, R, tier)
 
 		return s
 	}
@@ -635,7 +652,7 @@ func main() {
 	id := flag.String("id", "C01", "")
 	tier := flag.String("tier", "quick", "")
 	depth := flag.Int("depth", 0, "")
-	systems := flag.String("systems", "MemFS,OrefaFS", "")
+	systems := flag.String("systems", "MemFS,OrefaFS,MemFS+tree,OrefaFS+tree", "")
 	var wflag string
 	flag.StringVar(&wflag, "bfsworker", "", "")
 	flag.Parse()
